@@ -48,6 +48,9 @@ struct VideoItem {
 }
 
 const CTS_K: [i32; 3] = [0, -2, 1];
+/// index 3 = an offset that does not fit the signed 32-bit field (the write must be rejected
+/// and leave the accepted samples' timing untouched)
+const CTS_OVERFLOW: usize = 3;
 
 fn video_ops(it: &VideoItem, cts: &[usize]) -> Option<Vec<Op>> {
     let st = video_steps();
@@ -58,8 +61,7 @@ fn video_ops(it: &VideoItem, cts: &[usize]) -> Option<Vec<Op>> {
         if i > 0 {
             t += st[it.steps[i - 1]];
         }
-        let k = CTS_K[cts[i]];
-        let pts = t + k as f64 / 30.0;
+        let pts = if cts[i] == CTS_OVERFLOW { t + (2147483648.0 + 4500.0) / 90000.0 } else { t + CTS_K[cts[i]] as f64 / 30.0 };
         if !tick_is_robust(t) || (pts >= 0.0 && !tick_is_robust(pts)) {
             return None;
         }
@@ -99,6 +101,14 @@ pub fn check_c03(ctx: &Ctx) -> i32 {
             let mut v = vec![vec![]];
             for _ in 0..n {
                 v = v.into_iter().flat_map(|p: Vec<usize>| (0..CTS_K.len()).map(move |k| { let mut q = p.clone(); q.push(k); q })).collect();
+            }
+            // plus: an overflowing offset at each single position of the all-zero and all-(+1) vectors
+            for base in [0usize, 2] {
+                for p in 0..n {
+                    let mut q = vec![base; n];
+                    q[p] = CTS_OVERFLOW;
+                    v.push(q);
+                }
             }
             v
         } else {
